@@ -1,5 +1,6 @@
 import Golib.Model.C17Strs
 import Golib.Model.C17Gram
+import Golib.Model.C17Utf8Tie
 
 /-
 Driver of the C17 section of the oracle.
@@ -17,6 +18,9 @@ Every op line is one call on the subject string and is independent of the others
   round <bool>                CamelCaseToSnake(SnakeToCamelCase(s, firstUp))
   isident                     s ∈ [a-z][a-z0-9]*(_[a-z][a-z0-9]*)*  (the grammar of the round-trip
                               theorem; compared with the harness's regexp, not with /repo)
+
+Header `@ C17 utf8`: the exhaustive tie of the shared UTF-8 prelude to Go's `unicode/utf8`
+(no call into /repo; see `Golib/Model/C17Utf8Tie.lean` for its operations).
 -/
 namespace Golib.C17
 open Golib.Proto Golib.Utf8
@@ -66,6 +70,7 @@ def runCase (hdr : List String) (ops : List String) : List String :=
     match unhex h with
     | some s => "ok" :: ops.map fun l => runOp s (toks l)
     | none => "bad-op" :: ops.map fun _ => "bad-op"
+  | ["utf8"] => Tie.runCase ops
   | _ => "bad-op" :: ops.map fun _ => "bad-op"
 
 end Golib.C17
